@@ -159,24 +159,17 @@ def posOfOffset (text : Bytes) (off : Nat) : Nat × Nat :=
   let ls := splitOn lf pre
   (ls.length - 1, u16lenB (ls.getLast?.getD []))
 
-def sliceB (text : Bytes) (a b : Nat) : Bytes := (text.take b).drop a
-
-/-- Leading white space (as `unicode.IsSpace`) of a byte string, in bytes. -/
-def leadWs (s : Bytes) : Nat := (unchunk ((chunks s).takeWhile (fun c => isSpaceRune c.1))).length
-
 /-- The lexeme a lexer token stands for, as a byte range of the text: the source span
-    `[Pos.Offset, End.Offset)` without surrounding white space.  `|` is reported by the lexer
-    with `Pos = End =` the position after the character; a comment keeps its trailing blanks
-    (but not the CR of a CRLF line end). -/
+    `[Pos.Offset, End.Offset)` (`sliceB`, `leadWs` = leading white space as `unicode.IsSpace`,
+    in bytes) without surrounding white space; a comment keeps its trailing blanks (but not
+    the CR of a CRLF line end).  The pinned lexer reported `|` with `Pos = End =` the position
+    after the character (finding pipe-position, repaired). -/
 def lexemeRange (text : Bytes) (t : Token) : Nat × Nat :=
-  match t.ty with
-  | .pipe =>
-    -- pinned lexer: an empty `|` token behind its character (finding pipe-position, repaired)
-    if t.pos.off == t.stop.off then (t.pos.off - 1, t.pos.off) else (t.pos.off, t.stop.off)
-  | .comment =>
+  if t.ty == .pipe && t.pos.off == t.stop.off then (t.pos.off - 1, t.pos.off)
+  else if t.ty == .comment then
     let raw := sliceB text t.pos.off t.stop.off
     (t.pos.off, t.pos.off + (stripCR raw).length)
-  | _ =>
+  else
     let raw := sliceB text t.pos.off t.stop.off
     let a := leadWs raw
     (t.pos.off + a, t.pos.off + a + (trimSpace raw).length)
@@ -236,37 +229,40 @@ def coversOk (cls : Classes) (text : Bytes) (toks : List Token) (a : AbsTok) : B
 /-! ### Guards of the known deviations (see known_findings.json, property C17)
 
   Each is a decidable predicate on the text and ONE lexer token (the token a semantic token was
-  made from); the `_partial` theorems assume their negations. -/
+  made from).  Open: `devCrComment` only (the `_partial` theorems assume its negation).  The
+  others name the shapes on which the PINNED tokenizer (HL/Model/SemTokPinned.lean) failed; the
+  defects are repaired, the predicates are kept for the `pinned_*_counterexample` theorems. -/
 
 /-- `|` reported at the position AFTER the character with an empty extent (the pinned lexer;
     repaired by the `scanPunct` fix — the current lexer never produces this shape). -/
 def devPipe (t : Token) : Bool := t.ty == .pipe && t.pos.off == t.stop.off
 
-/-- A code's value has no parentheses, its length is computed from the value. -/
+/-- (repaired) A code's value has no parentheses, its length was computed from the value. -/
 def devCode (t : Token) : Bool := t.ty == .code
 
-/-- A quoted commodity's value has no quotes, its length is computed from the value. -/
+/-- (repaired) A quoted commodity's value has no quotes, its length was computed from the value. -/
 def devQuoted (t : Token) : Bool := t.ty == .commodity && t.stop.off - t.pos.off != t.val.length
 
-/-- A text token's value is trimmed but its position is where scanning started; an empty
-    value gives a zero-length token. -/
+/-- (repaired) A text token's value is trimmed but its position was where scanning started; an
+    empty value gave a zero-length token. -/
 def devTextTrim (text : Bytes) (t : Token) : Bool :=
   t.ty == .text && (t.val.isEmpty || leadWs (sliceB text t.pos.off t.stop.off) > 0)
 
-/-- A comment on a CRLF line: the value (and so the length) includes the CR. -/
+/-- A comment on a CRLF line: the value (and so the length) includes the CR.  OPEN. -/
 def devCrComment (t : Token) : Bool := t.ty == .comment && t.val.getLast? == some cr
 
-/-- A character outside the BMP earlier on the line: the lexer's column counts it once, LSP
-    counts two UTF-16 units. -/
+/-- (repaired) A character outside the BMP earlier on the line: the lexer's column counts it
+    once, LSP counts two UTF-16 units. -/
 def devNonBmpBefore (text : Bytes) (off : Nat) : Bool :=
   ((runes ((splitOn lf (text.take off)).getLast?.getD [])).any (· ≥ 0x10000))
 
-/-- Tag tokens are placed by BYTE offsets inside the comment: wrong after a non-ASCII byte. -/
+/-- (repaired) Tag tokens were placed by BYTE offsets inside the comment: wrong after a
+    non-ASCII byte. -/
 def devTagBytes (t : Token) (endByte : Nat) : Bool := (t.val.take endByte).any (· ≥ 0x80)
 
-/-- A comma-separated part of the comment that contains `:` but whose name is not a tag name
-    (empty, or with blanks or other characters) is skipped WITHOUT advancing the search
-    position; `strings.Index` may then find a later tag's `name:` inside that part. -/
+/-- (repaired) A comma-separated part of the comment that contains `:` but whose name is not a
+    tag name (empty, or with blanks or other characters) was skipped WITHOUT advancing the search
+    position; `strings.Index` could then find a later tag's `name:` inside that part. -/
 def devTagSkippedPart (cls : Classes) (t : Token) : Bool :=
   t.ty == .comment &&
   (splitOn comma t.val).any fun part =>
@@ -279,28 +275,18 @@ def devTagSkippedPart (cls : Classes) (t : Token) : Bool :=
 
 /-! ### Hypotheses on the lexer's output
 
-  The tokenizer model takes the lexer's tokens as input; the theorems about positions assume
-  the following decidable facts about them (the driver evaluates them on every generated case:
-  they hold on every case outside the guards above).  Columns are the lexer's (1-based, runes). -/
+  The tokenizer model takes the text and the lexer's tokens as input; the theorems about
+  positions assume the lexer's CONTRACT about that output — `extentsB` (extents in bytes),
+  `cutsB` (offsets on rune boundaries, defined further down) and `lineOk` (line numbers) — as
+  decidable facts which the driver evaluates on every generated case.  They do not mention
+  token values (except a comment's) or the lexer's columns.  `measured` / `measB` / `placed` are
+  intermediate notions (the cursor agrees with UTF-16 lengths and LSP characters) which
+  HL/Lemmas/SemTokPlace.lean derives from the contract; `inlineB` (every piece ends inside its
+  line) follows from the contract unless a comment's value ends with a CR
+  (HL/Lemmas/SemTokLines.lean) — the open CRLF finding. -/
 
-/-- The cells a lexer token claims on its line, as the semantic tokenizer will use them:
-    the UTF-16 length of the value (+1 for the `;` of a comment; a comment in which tags are
-    found is cut up by byte offsets: byte length + 1); nothing for kinds that are not mapped. -/
-def claimWidth (cls : Classes) (t : Token) : Nat :=
-  match mapTokenType t.ty with
-  | none => 0
-  | some _ =>
-    if t.ty == .comment then
-      (if (extractSpans cls t.val).isEmpty then u16lenB t.val + 1 else t.val.length + 1)
-    else u16lenB t.val
-
-/-- Line and column are positive and everything fits in `uint32`. -/
-def tokBounds (cls : Classes) (t : Token) : Bool :=
-  1 ≤ t.pos.line && t.pos.line < 2 ^ 32 && 1 ≤ t.pos.col && t.pos.col + claimWidth cls t < 2 ^ 32
-
-/-- `t'` starts after the cells `t` claims. -/
-def boxLe (cls : Classes) (t t' : Token) : Bool :=
-  t.pos.line < t'.pos.line || (t.pos.line == t'.pos.line && t.pos.col + claimWidth cls t ≤ t'.pos.col)
+/-- No line feed in `text[a:b)`. -/
+def noLf (text : Bytes) (a b : Nat) : Bool := !(sliceB text a b).contains lf
 
 /-- The tokens `tokenizeForSemantics` looks at (up to the EOF token) that it maps to a
     semantic type. -/
@@ -310,26 +296,81 @@ def mappedBody : List Token → List Token
     if t.ty == .eof then []
     else if (mapTokenType t.ty).isSome then t :: mappedBody rest else mappedBody rest
 
-def chainB (cls : Classes) : List Token → Bool
-  | t :: t' :: rest => boxLe cls t t' && chainB cls (t' :: rest)
+/-- The lexer's contract for one token: a positive 32-bit line number, an extent inside the
+    text (which is addressable with 32 bits) and inside one line; a comment's value is its
+    extent without the semicolon. -/
+def extentOk (text : Bytes) (t : Token) : Bool :=
+  1 ≤ t.pos.line && t.pos.line < 2 ^ 32 && t.pos.off ≤ t.stop.off && t.stop.off ≤ text.length &&
+  text.length < 2 ^ 32 && noLf text t.pos.off t.stop.off &&
+  (t.ty != .comment || sliceB text t.pos.off t.stop.off == 0x3B :: t.val)
+
+/-- `t'` starts where `t` ends or later; on the same line iff the lexer says so. -/
+def follows (text : Bytes) (t t' : Token) : Bool :=
+  t.stop.off ≤ t'.pos.off &&
+  (t.pos.line < t'.pos.line || (t.pos.line == t'.pos.line && noLf text t.stop.off t'.pos.off))
+
+def chainB (text : Bytes) : List Token → Bool
+  | t :: t' :: rest => follows text t t' && chainB text (t' :: rest)
   | _ => true
 
-/-- Bounds, and every mapped token starts after the cells claimed by the mapped token before it. -/
-def spacedB (cls : Classes) (toks : List Token) : Bool :=
-  (mappedBody toks).all (tokBounds cls) && chainB cls (mappedBody toks)
+/-- Extents are well-formed and laid out in document order without overlap (in bytes). -/
+def extentsB (text : Bytes) (toks : List Token) : Bool :=
+  (mappedBody toks).all (extentOk text) && chainB text (mappedBody toks)
 
-/-- The cells claimed lie inside the token's line (`lens` = UTF-16 length of every line). -/
-def inlineB (lens : List Nat) (cls : Classes) (toks : List Token) : Bool :=
-  (mappedBody toks).all fun t =>
+/-- The pieces of the text (absolute byte offset, byte length, UTF-16 length) that the semantic
+    tokenizer turns into tokens for lexer token `t`. -/
+def emitted (cls : Classes) (text : Bytes) (t : Token) : List TagSpan :=
+  let tags := if t.ty == .comment then extractSpans cls t.val else []
+  if !tags.isEmpty then tags.map fun sp => { sp with off := t.pos.off + 1 + sp.off }
+  else
+    let sp := plainSpan text t 0
+    if sp.len16 == 0 then [] else [sp]
+
+/-- The cursor's columns at both ends of a piece are at least its UTF-16 length apart (they
+    are exactly that far apart when both ends are rune boundaries of the text). -/
+def measured (text : Bytes) (sp : TagSpan) : Bool :=
+  colAt text sp.off + sp.len16 ≤ colAt text (sp.off + sp.len) && colAt text (sp.off + sp.len) < 2 ^ 32
+
+def measB (cls : Classes) (text : Bytes) (toks : List Token) : Bool :=
+  (mappedBody toks).all fun t => (emitted cls text t).all (measured text)
+
+/-- Every piece ends inside its line (`lens` = UTF-16 length of every line without its line
+    end): false for a comment that includes the CR of a CRLF line end. -/
+def inlineB (lens : List Nat) (cls : Classes) (text : Bytes) (toks : List Token) : Bool :=
+  (mappedBody toks).all fun t => (emitted cls text t).all fun sp =>
     match lens[t.pos.line - 1]? with
-    | some n => t.pos.col - 1 + claimWidth cls t ≤ n
+    | some n => colAt text (sp.off + sp.len) ≤ n
     | none => false
 
-/-- The lexer's line, column and value describe where the lexeme really is in the text (in LSP
-    coordinates) and how long it is: false exactly for the deviations listed above. -/
-def faithful (text : Bytes) (t : Token) : Bool :=
-  let w := u16lenB t.val + (if t.ty == .comment then 1 else 0)
-  w > 0 && lexemeSpan text t == (t.pos.line - 1, t.pos.col - 1, w)
+/-- The lexer's line number and the cursor's column are the LSP position of the lexeme's first
+    byte. -/
+def placed (text : Bytes) (t : Token) : Bool :=
+  let a := (lexemeRange text t).1
+  posOfOffset text a == (t.pos.line - 1, colAt text a)
+
+/-! ### Rune boundaries (the lexer's offsets never fall inside a rune) -/
+
+/-- `n` is a rune boundary of `s`: the start of a rune, or the end of the string, when `s` is
+    decoded from its start (`for i := range s`). -/
+def isCutF : Nat → Bytes → Nat → Bool
+  | _, _, 0 => true
+  | 0, _, _+1 => false
+  | _+1, [], _+1 => false
+  | f+1, s@(_ :: _), n+1 =>
+    let k := (decodeRune s).2
+    k ≤ n+1 && isCutF f (s.drop k) (n+1-k)
+
+def isCut (s : Bytes) (n : Nat) : Bool := isCutF s.length s n
+
+/-- Both ends of the token's extent are rune boundaries of the text. -/
+def cutOk (text : Bytes) (t : Token) : Bool := isCut text t.pos.off && isCut text t.stop.off
+
+/-- The lexer's contract about offsets: every mapped token starts and ends on a rune boundary. -/
+def cutsB (text : Bytes) (toks : List Token) : Bool := (mappedBody toks).all (cutOk text)
+
+/-- The lexer's contract about line numbers: `Pos.Line` is one more than the number of line
+    feeds before `Pos.Offset`. -/
+def lineOk (text : Bytes) (t : Token) : Bool := (posOfOffset text t.pos.off).1 == t.pos.line - 1
 
 /-- The property's domain: valid UTF-8 (no U+FFFD produced by decoding unless present), and CR
     only as part of CRLF. -/
